@@ -20,7 +20,8 @@ func disciplineObligations(fn *ssa.Function, name string, fc *FuncContract, enc 
 	sc, okSC := fc.Opts["stablecapture"]
 	ex, okEX := fc.Opts["exhaustive"]
 	nbk, okNBK := fc.Opts["nobreak"]
-	if !ok && !okNB && !okSC && !okEX && !okNBK {
+	ol, okOL := fc.Opts["onelock"]
+	if !ok && !okNB && !okSC && !okEX && !okNBK && !okOL {
 		return nil
 	}
 	tags := splitList(strings.Trim(v, "[]"))
@@ -30,9 +31,46 @@ func disciplineObligations(fn *ssa.Function, name string, fc *FuncContract, enc 
 	var out []*Obligation
 	if okEX || okNBK {
 		out = append(out, loopExitObligations(fn, name, enc, okEX, optTags(ex+" "+nbk))...)
-		if !ok && !okNB && !okSC {
-			return out
+	}
+	if okOL {
+		// `opt onelock`: the function takes a mutex at most once, so everything it
+		// reads and writes under the lock belongs to one critical section (a value
+		// read in one section and used in a later one is a check-then-act race)
+		n := 0
+		var pos token.Pos
+		for _, b := range fn.Blocks {
+			for _, in := range b.Instrs {
+				ci, isCall := in.(ssa.CallInstruction)
+				if !isCall {
+					continue
+				}
+				if f := ci.Common().StaticCallee(); f != nil {
+					switch f.String() {
+					case "(*sync.Mutex).Lock", "(*sync.RWMutex).Lock", "(*sync.RWMutex).RLock":
+						n++
+						if n > 1 {
+							pos = in.Pos()
+						}
+					}
+				}
+			}
 		}
+		if !pos.IsValid() {
+			pos = fn.Pos()
+		}
+		st, goal := "unsat", "true"
+		if n > 1 {
+			st, goal = "sat", "false"
+		}
+		p := fn.Prog.Fset.Position(pos)
+		out = append(out, &Obligation{Name: name + "/discipline/one-critical-section", Func: name, Kind: "discipline",
+			Label: "one-critical-section", Tags: optTags(ol), Goal: goal, Guard: "true", Enc: enc,
+			Src:    "the mutex is taken at most once: one critical section, no check-then-act across sections",
+			Where:  fmt.Sprintf("%s:%d", shortPath(p.Filename), p.Line),
+			Result: &SolveResult{Status: st, Solver: "ssa-dataflow", All: map[string]string{"ssa-dataflow": st}}})
+	}
+	if (okEX || okNBK || okOL) && !ok && !okNB && !okSC {
+		return out
 	}
 	isDone := func(ch ssa.Value) bool {
 		c, ok := ch.(*ssa.Call)
